@@ -23,7 +23,7 @@ func (refmux) Name() string    { return "refmux" }
 func (refmux) Props() []string { return []string{"C02"} }
 func (refmux) Runs(tier string) int64 {
 	if tier == "thorough" {
-		return 400000
+		return 2000000
 	}
 	return 10000
 }
@@ -283,7 +283,8 @@ func (refmux) Execute(scAny any, keepLog bool) *core.Outcome {
 			lastReads[d.PID] = r.Reads
 		}
 	}
-	for pid, w := range want {
+	for _, pid := range pidKeys(want) {
+		w := want[pid]
 		for idx[pid] < len(w) && straddled[[2]int{w[idx[pid]].stream, w[idx[pid]].unit}] {
 			out.Violate("C02", "unit-lost", "straddled-unit", "PID %#x datum %d: the section whose tail is carried in the next payload_unit_start packet was not delivered", pid, idx[pid])
 			idx[pid]++
